@@ -126,6 +126,8 @@ def check(prog: Program, run: Run) -> None:
     _escape(prog, run)
     _alterations(prog, run)
     _representability(prog, run)
+    from . import c02
+    common.run_as(run, "C02.R2", "C04.R3", lambda r: c02._atomic_sites(prog, r))
     _required_unknown(prog, run)
     _non_settable(prog, run)
     common.g5_absence_by_truthiness(prog, run, "C04.G5", [
